@@ -104,3 +104,13 @@ package config
 //@   loop#1 invariant (exists k0 int :: 0 <= k0 && k0 < len(callresult(Selected, 1)) && !callresult(Selected, 1)[k0].Indexed) ==> igHasCol(ig, "abi_idx") && igHasBD(ig, "abi_idx")
 //@   loop#1 invariant len((*ig).Table.Columns) >= pre(len((*ig).Table.Columns)) && (forall k int :: 0 <= k && k < pre(len((*ig).Table.Columns)) ==> colAt(ig, k) == pre(colAt(ig, k)))
 //@   loop#1 invariant len((*ig).Block) >= pre(len((*ig).Block)) && (forall k int :: 0 <= k && k < pre(len((*ig).Block)) ==> bdAt(ig, k) == pre(bdAt(ig, k)))
+
+// C16: a configuration is accepted only if every selected input, every block
+// field and every notification column has a table column.
+//@ func ValidateColRefs props=C16
+//@   ensures [selected-inputs-have-columns] result == nil ==> (forall k int :: 0 <= k && k < len(callresult(Selected, 0)) ==> (exists c int :: 0 <= c && c < len(ig.Table.Columns) && ig.Table.Columns[c].Name == callresult(Selected, 0)[k].Column))
+//@   ensures [block-fields-have-columns] result == nil ==> (forall k int :: 0 <= k && k < len(ig.Block) ==> len(ig.Block[k].Column) > 0 && (exists c int :: 0 <= c && c < len(ig.Table.Columns) && ig.Table.Columns[c].Name == ig.Block[k].Column))
+//@   ensures [notification-columns-exist] result == nil ==> (forall k int :: 0 <= k && k < len(ig.Notification.Columns) ==> (exists c int :: 0 <= c && c < len(ig.Table.Columns) && ig.Table.Columns[c].Name == ig.Notification.Columns[k]))
+//@   loop#3 invariant forall k int :: 0 <= k && k <= rangeindex ==> (exists c int witness rangeindex_4 + 1 :: 0 <= c && c < len(ig.Table.Columns) && ig.Table.Columns[c].Name == callresult(Selected, 0)[k].Column)
+//@   loop#5 invariant forall k int :: 0 <= k && k <= rangeindex ==> len(ig.Block[k].Column) > 0 && (exists c int witness rangeindex_6 + 1 :: 0 <= c && c < len(ig.Table.Columns) && ig.Table.Columns[c].Name == ig.Block[k].Column)
+//@   loop#7 invariant forall k int :: 0 <= k && k <= rangeindex ==> (exists c int witness rangeindex_8 + 1 :: 0 <= c && c < len(ig.Table.Columns) && ig.Table.Columns[c].Name == ig.Notification.Columns[k])
